@@ -163,6 +163,9 @@ def gen_cases(chk):
             for _ in range(n):
                 x += Fraction(rng.choice([-2, -1, -1, 0, 0, 1, 1, 2]), rng.choice([1, 2]))
                 seq.append(x)
+        if rng.random() < 0.15:
+            off = rng.choice([2 ** 31, -2 ** 35, 2 ** 40 + 3])     # large offset, still exact in binary64
+            seq = [v + off for v in seq]
         yield seq, rng.random() < 0.5
     # degenerate lengths: the error branch
     yield [1], False
